@@ -11,7 +11,7 @@ import (
 func init() {
 	register(&Check{
 		ID: "C02", Level: "exploration", QuickSecs: 150, ThoroughSecs: 1500,
-		Rule:        "skeletons over {'a',[ab],.,\"é\",&{},!{},#{}} x {?,*,+,&,!} x seq/choice up to N nodes (quick 4, thorough 5) wrapped in a rule-level action; left-recursive rules generated with -support-left-recursion (12 grammars: text, pos and the seed as label value in every growth iteration); every placement of <=2 labels on sub-expressions (distinct names, and the same name twice when the two bindings are in different scopes); a scope family (x bound in the rule sequence and again inside each scope-opening construct - & ! ? * + choice alternative, label, recovery - in a sub-sequence that continues after the inner binding; 243 grammars, inputs over {a,b} up to 4); every block receives the labels of its scope; every true/false script of the code predicates, each also with the predicates returning an error next to their boolean; inputs over {a,b,\\n,é} up to L=3; the complete ordered log of block invocations (id, kind, line:col:offset, text, label values), also on abandoned alternatives, and the parse result are compared with the reference interpreter; with Memoize (bodies up to 3 nodes in the quick tier) each observed invocation must be one the reference also makes; plus a family generated with -optimize-grammar in which a labelled leaf rule is inlined next to equally named labels. Non-trivial = at least two block invocations of which one on a later-abandoned path or after a backtrack. Plus a recovery scope family (x bound in the guarded expression of a recovery operator, a throw from 7 kinds of nested scope, recovery expressions whose predicate and action receive x and bind y, with and without an outer x; 42 grammars) and a line/column family (12 terminals spanning or following line ends - newline first / middle / last / only rune of a literal, CR LF, non-ASCII next to a newline, classes, any - in ordered pairs, two shapes, all 8 flag sets without left recursion, inputs over {a,newline,b} up to 4) and the cross family (cross.go, bodies <= 3 nodes x 16 flag sets, complete block log).",
+		Rule:        "skeletons over {'a',[ab],.,\"é\",&{},!{},#{}} x {?,*,+,&,!} x seq/choice up to N nodes (quick 4, thorough 5) wrapped in a rule-level action; left-recursive rules generated with -support-left-recursion (12 grammars: text, pos and the seed as label value in every growth iteration); every placement of <=2 labels on sub-expressions (distinct names, and the same name twice when the two bindings are in different scopes); a scope family (x bound in the rule sequence and again inside each scope-opening construct - & ! ? * + choice alternative, label, recovery - in a sub-sequence that continues after the inner binding; 243 grammars, inputs over {a,b} up to 4); every block receives the labels of its scope; every true/false script of the code predicates, each also with the predicates returning an error next to their boolean; inputs over {a,b,\\n,é} up to L=3; the complete ordered log of block invocations (id, kind, line:col:offset, text, label values), also on abandoned alternatives, and the parse result are compared with the reference interpreter; with Memoize (bodies up to 3 nodes in the quick tier) each observed invocation must be one the reference also makes; plus a family generated with -optimize-grammar in which a labelled leaf rule is inlined next to equally named labels. Non-trivial = at least two block invocations of which one on a later-abandoned path or after a backtrack. Plus a recovery scope family (x bound in the guarded expression of a recovery operator, a throw from 7 kinds of nested scope, recovery expressions whose predicate and action receive x and bind y, with and without an outer x; 42 grammars) a thrown-value family (a labelled throw whose value comes from 5 kinds of recovery expression while the operator stands where its own value is not looked at; 15 grammars x 4 flag sets) and a line/column family (12 terminals spanning or following line ends - newline first / middle / last / only rune of a literal, CR LF, non-ASCII next to a newline, classes, any - in ordered pairs, two shapes, all 8 flag sets without left recursion, inputs over {a,newline,b} up to 4) and the cross family (cross.go, bodies <= 3 nodes x 16 flag sets, complete block log).",
 		Assumptions: []string{"E1 loader", "which labels a block receives is C04's concern; here the values bound to them are checked"},
 		Run:         runC02,
 	})
@@ -255,6 +255,42 @@ func runC02(c *ShardCtx) {
 						nontrivial: nontriv, confEvery: 7, confQuota: 1, cmp: core.CmpOpts{SkipNoMatch: true}}
 					runGrammar(c, g, fam)
 				}
+			}
+		}
+	}
+	// thrown values: the value of a recovery expression becomes the value of the throw it handles -
+	// here a LABELLED throw y:("b" / %{l}) whose value a predicate and an action read - while the
+	// recovery operator itself stands where nobody looks at ITS value (in a repetition below the rule
+	// action, below a predicate, as a plain sequence item); recovery expressions that are bare
+	// sequences, a terminal, the empty literal
+	{
+		lit := peg.Lit
+		recs := []func() *peg.Expr{
+			func() *peg.Expr { return peg.Seq(peg.Any(), peg.Opt(lit("b"))) }, func() *peg.Expr { return peg.Seq(lit("a")) },
+			func() *peg.Expr { return peg.Any() }, func() *peg.Expr { return lit("") }, func() *peg.Expr { return peg.Seq(peg.Star(lit("a")), lit("b")) },
+		}
+		for _, rec := range recs {
+			for pos := 0; pos < 3; pos++ {
+				idx++
+				if !c.Mine(idx) {
+					continue
+				}
+				op := peg.Recover(peg.Action(0, peg.Seq(peg.Label("x", lit("a")), peg.Label("y", peg.Choice(lit("b"), peg.Throw("l"))), peg.AndCode(0))), rec(), "l")
+				var top *peg.Expr
+				switch pos {
+				case 0:
+					top = peg.Seq(peg.Star(op), peg.Star(peg.Any()))
+				case 1:
+					top = peg.Seq(peg.And(op), peg.Star(peg.Any()))
+				case 2:
+					top = peg.Seq(op, peg.Opt(op.Clone()), peg.Star(peg.Any()))
+				}
+				g := &peg.Grammar{Rules: []*peg.Rule{{Name: "S", Expr: peg.Action(0, top)}}}
+				peg.Renumber(g, 1)
+				peg.AssignArgs(g)
+				fam := &family{gens: gens4, inputs: peg.Inputs([]string{"a", "b"}, 4), opts: []rtapi.RunOpts{{MaxExpr: 600, Filename: "f"}}, scripts: predScripts(g, func(e *peg.Expr) rtapi.Block { return rtapi.Block{} }),
+					nontrivial: nontriv, confEvery: 5, confQuota: 1, cmp: core.CmpOpts{SkipNoMatch: true}}
+				runGrammar(c, g, fam)
 			}
 		}
 	}
